@@ -21,7 +21,7 @@ func init() {
 			"whole assignment against an offline reference speciator; odd cases: 20-40 real epochs with the hook monitor on (in-epoch " +
 			"speciation, constructors). evaluations = placements. A placement is non-trivial if at least two species were candidates " +
 			"(closer than the threshold) or a new species was founded while others existed; distinct by (distance vector, threshold).",
-		Assumptions: []string{"distances within 1e-9 (relative) of the threshold or of each other count as ties and accept either answer"},
+		Assumptions: []string{"every distance is measured twice (reference formula, library); a placement is wrong only if it is wrong by both measures - no tolerance constants, a distance exactly at the threshold is not closer than the threshold"},
 		Cases: func(tier string) int {
 			if tier == "quick" {
 				return 256
@@ -29,7 +29,7 @@ func init() {
 			return 3200
 		},
 		Run:      runC08,
-		Required: []string{"placed.joined_nearest_of_several", "placed.joined_only_candidate", "placed.founded", "placed.in_epoch", "placed.direct", "method.linear", "method.fast"},
+		Required: []string{"placed.representative_exactly_at_threshold", "placed.joined_nearest_of_several", "placed.joined_only_candidate", "placed.founded", "placed.in_epoch", "placed.direct", "method.linear", "method.fast"},
 	})
 }
 
@@ -114,10 +114,13 @@ func (m *specMonitor) onPlaced(c *Ctx, p *genetics.Population, org *genetics.Org
 	created := len(sp.Organisms) == 1 && sp.Organisms[0] == org
 	recs := geneRecs(org.Genotype)
 	thr := m.opts.CompatThreshold
-	minD := math.Inf(1)
+	// Two measures of every distance: the reference formula and the library's own computation. They differ at most in the
+	// rounding of the summation order; a placement is wrong only if it is wrong by both (no tolerance constants: a distance
+	// exactly equal to the threshold by both measures is "not closer than the threshold").
+	type dist struct{ ref, lib float64 }
+	var dists []dist
+	var chosen dist
 	candidates := 0
-	var dists []float64
-	chosenD := math.NaN()
 	for _, s := range p.Species {
 		if s == sp && created {
 			continue
@@ -127,25 +130,34 @@ func (m *specMonitor) onPlaced(c *Ctx, p *genetics.Population, org *genetics.Org
 		}
 		rep := s.Organisms[0]
 		d, _, _, _ := refCompat(recs, geneRecs(rep.Genotype), m.opts.ExcessCoeff, m.opts.DisjointCoeff, m.opts.MutdiffCoeff)
-		dists = append(dists, d)
-		if d < thr {
+		dd := dist{d, org.Genotype.VerifCompatibility(rep.Genotype, m.opts)}
+		dists = append(dists, dd)
+		if dd.ref < thr {
 			candidates++
 		}
-		if d < minD {
-			minD = d
-		}
 		if s == sp {
-			chosenD = d
+			chosen = dd
+		}
+		if dd.ref == thr && dd.lib == thr {
+			c.Count("placed.representative_exactly_at_threshold", 1)
 		}
 	}
-	tie := func(a, b float64) bool { return closeRel(a, b, 1e-9) }
+	refs := func() []float64 {
+		out := make([]float64, len(dists))
+		for i, d := range dists {
+			out[i] = d.ref
+		}
+		return out
+	}
 	if created {
-		if minD < thr && !tie(minD, thr) {
-			m.stop = true
-			dd := detail()
-			dd["distances"] = dists
-			c.Violate("founded-despite-compatible", dd, "a new species %d was founded although a representative is at distance %v < threshold %v", sp.Id, minD, thr)
-			return
+		for _, d := range dists {
+			if d.ref < thr && d.lib < thr {
+				m.stop = true
+				dd := detail()
+				dd["distances"] = refs()
+				c.Violate("founded-despite-compatible", dd, "a new species %d was founded although a representative is at distance %v < threshold %v", sp.Id, d.ref, thr)
+				return
+			}
 		}
 		if sp.Id <= m.maxId {
 			m.stop = true
@@ -154,26 +166,28 @@ func (m *specMonitor) onPlaced(c *Ctx, p *genetics.Population, org *genetics.Org
 		}
 		c.Count("placed.founded", 1)
 		if len(dists) > 0 {
-			m.distinct(c, dists, thr)
+			m.distinct(c, refs(), thr)
 		}
 	} else {
-		if !(chosenD < thr) && !tie(chosenD, thr) {
+		if !(chosen.ref < thr) && !(chosen.lib < thr) {
 			m.stop = true
 			dd := detail()
-			dd["distances"] = dists
-			c.Violate("joined-incompatible", dd, "organism joined species %d whose representative is at distance %v >= threshold %v", sp.Id, chosenD, thr)
+			dd["distances"] = refs()
+			c.Violate("joined-incompatible", dd, "organism joined species %d whose representative is at distance %v, not closer than the threshold %v", sp.Id, chosen.ref, thr)
 			return
 		}
-		if chosenD > minD && !tie(chosenD, minD) {
-			m.stop = true
-			dd := detail()
-			dd["distances"] = dists
-			c.Violate("not-nearest", dd, "organism joined species %d at distance %v although another representative is at distance %v", sp.Id, chosenD, minD)
-			return
+		for _, d := range dists {
+			if d.ref < chosen.ref && d.lib < chosen.lib {
+				m.stop = true
+				dd := detail()
+				dd["distances"] = refs()
+				c.Violate("not-nearest", dd, "organism joined species %d at distance %v although another representative is at distance %v", sp.Id, chosen.ref, d.ref)
+				return
+			}
 		}
 		if candidates >= 2 {
 			c.Count("placed.joined_nearest_of_several", 1)
-			m.distinct(c, dists, thr)
+			m.distinct(c, refs(), thr)
 		} else {
 			c.Count("placed.joined_only_candidate", 1)
 		}
@@ -267,7 +281,7 @@ func c08Direct(c *Ctx) {
 	}
 	sort.Float64s(ds)
 	q := ds[r.Intn(len(ds))]
-	o.CompatThreshold = q + pick(r, 1e-6, 0.01, 0.1)*(1+q)
+	o.CompatThreshold = q + pick(r, 0.0, 1e-6, 0.01, 0.1)*(1+q) // offset 0: a distance of the batch is exactly the threshold
 	if o.CompatThreshold <= 0 {
 		o.CompatThreshold = 0.01
 	}
